@@ -398,6 +398,22 @@ class Guard:
         return ("G", self.kind) + tuple(conv(a) for a in self.args)
 
 
+class Phi:
+    """Join of a value with None under a symbolic condition (`x = None; if c: x = v`): cond true -> a, false -> b.
+    Only identity tests against None look inside it; a branch on such a test refines the variable to the matching side."""
+
+    __slots__ = ("cond", "a", "b")
+
+    def __init__(self, cond, a, b):
+        self.cond, self.a, self.b = cond, a, b
+
+    def key(self):
+        return ("phi", self.cond.key(), keyof(self.a), keyof(self.b))
+
+    def __repr__(self):
+        return f"Phi({self.cond!r}, {type(self.a).__name__}, {type(self.b).__name__})"
+
+
 class Mask:
     """Boolean mask over axis 0 of an array, one condition per element."""
 
